@@ -202,6 +202,15 @@ fn one_record(s: &mut Session, st: &mut Stats, label: &str, rec: &[u8], flags: u
     s.oracle("subset-glyph-no-panic", out.is_ok(), input, || "panic".into());
     let Ok(Ok(b)) = out else { return };
     if !b.is_empty() {
+        // re-subsetting the rewritten record with the identity on the new ids (theorems resubset_*_glyph_unchanged)
+        let mut id_map: Vec<(u32, u32)> = map.iter().map(|(_, n)| (n & 0xFFFF, n & 0xFFFF)).collect();
+        id_map.sort();
+        id_map.dedup();
+        let plan2 = vh::plan_with_glyph_map(&id_map, SubsetFlags::from(flags));
+        let again = catch(|| vh::subset_glyph_bytes(&b, &plan2));
+        s.oracle("resubset-glyph-bytes-unchanged", matches!(&again, Ok(Ok(b2)) if *b2 == b), input, || {
+            format!("first {} second {}", hex(&b), match &again { Ok(Ok(b2)) => hex(b2), Ok(Err(e)) => format!("readerr {e}"), Err(e) => format!("panic {e}") })
+        });
         let d1 = decode(&b);
         let ok = match (&d0, &d1) {
             (Dec::Simple { head: h0, ends: e0, pts: p0, fast: f0, instr: i0, flag_bytes_le_points: le, .. }, Dec::Simple { head: h1, ends: e1, pts: p1, fast: f1, instr: i1, .. }) => {
